@@ -305,6 +305,11 @@ def gather_sites(ex: Expander, pred=None):
 def check_site(repo, col, cl: Classifier, rule, fi, kind, arr, idx, node, kcs=KCS, label=""):
     """Emit one obligation per key class for which both sides have a known space."""
     arr = strip_alias(repo, arr) if arr.op in ("item", "mcall", "call") else arr
+    if isinstance(fi, FuncInfo):
+        try:
+            idx = inline(repo, fi, idx)  # an index produced by a local / private helper is classified through it
+        except Exception:
+            pass
     if arr.op == "sub":
         arr = T("sub", None, [strip_alias(repo, arr.args[0]), arr.args[1]], node=arr.node)
     n = 0
